@@ -107,9 +107,7 @@ MUTANTS = [
     ("c05-no-prefill-ft", "C05", "tdfForce3D.py", "        force_data[:] = np.nan\n", ""),
     ("c05-clump-masked", "C05", "tdfEMG.py", "return np.ma.clump_unmasked(maskedTrackData.T)",
      "return np.ma.clump_unmasked(maskedTrackData.T) if not np.isnan(self.data).all() else [slice(0, 0)]"),
-    ("c06-vp-swap", "C06", "tdfTypes.py",
-     "        origin = VEC2I.bread(stream)\n        size = VEC2I.bread(stream)\n        return CameraViewPort(origin, size)",
-     "        size = VEC2I.bread(stream)\n        origin = VEC2I.bread(stream)\n        return CameraViewPort(origin, size)"),
+    ("c06-vp-swap", "C06", "tdfTypes.py", None, None),
     ("c06-emg-bias-both", "C06", "tdfEMG.py", "49", "48"),
     ("c06-entry-pad-moved", "C06", "basictdf.py", None, None),
     ("c07-validate-late", "C07", "basictdf.py",
@@ -124,14 +122,14 @@ MUTANTS = [
     ("c09-no-truncate", "C09", "basictdf.py", "        self.handler.truncate()\n", ""),
     ("c09-freed-slot-preshift", "C09", "basictdf.py", "newOffset = endOfFile - oldEntry.size", "newOffset = endOfFile"),
     ("c10-no-flush-add", "C10", "basictdf.py", "        # and that the changes are written to disk\n        self.handler.flush()\n", ""),
-    ("c10-no-flush-remove", "C10", "basictdf.py", "        self.handler.truncate()\n        self.handler.flush()\n", "        self.handler.truncate()\n"),
+    ("c10-entry-after-flush", "C10", "basictdf.py", None, None),
     ("c10-memory-only", "C10", "basictdf.py", "        self.entries.append(newEntry)\n        self.handler.seek(64 + 288 * (len(self.entries) - 1), 0)\n        newEntry._write(self.handler)",
      "        self.entries.append(newEntry)\n        self.handler.seek(64 + 288 * (len(self.entries) - 1), 0)\n        TdfEntry(newEntry.type, 0, newOffset, 0, date, date, date, 'x')._write(self.handler)"),
     ("c11-has-emg", "C11", "basictdf.py", "            entry.type == BlockType.electromyographicData for entry in self.entries",
      "            entry.type == BlockType.forceAndTorqueData for entry in self.entries"),
     ("c11-len-all", "C11", "basictdf.py", "return sum(1 for i in self.entries if i.type != BlockType.unusedSlot)", "return sum(1 for i in self.entries)"),
     ("c11-setter-adds", "C11", "basictdf.py", "self.replace_block(data) if self.has_emg else self.add_block(data)",
-     "self.add_block(data) if not self.has_emg else (self.remove_block(data), self.add_block(data))"),
+     "self.add_block(data)"),
     ("c12-string-rstrip", "C12", "tdfTypes.py", "            pos = la.index(b\"\\x00\")\n            return la[:pos].decode(encoding)",
      "            la.index(b\"\\x00\")\n            return la.rstrip(b\"\\x00\").split(b\"\\x00\")[0].decode(encoding) if la.rstrip(b\"\\x00\").count(b\"\\x00\") == 0 else la.rstrip(b\"\\x00\").replace(b\"\\x00\", b\" \").decode(encoding)"),
     ("c12-entry-pad-format", "C12", "basictdf.py", "        i32.skip(file)\n        comment = BTSString.bread(file, 256)",
@@ -159,6 +157,21 @@ def _apply(src, mid, fname, old, new):
         b = "        i32.bpad(file)\n        BTSDate.bwrite(file, self.creation_date)\n        BTSDate.bwrite(file, self.last_modification_date)\n        BTSDate.bwrite(file, self.last_access_date)\n"
         c = "        creation_date = BTSDate.bread(file)\n        last_modification_date = BTSDate.bread(file)\n        last_access_date = BTSDate.bread(file)\n        i32.skip(file)\n"
         d = "        i32.skip(file)\n        creation_date = BTSDate.bread(file)\n        last_modification_date = BTSDate.bread(file)\n        last_access_date = BTSDate.bread(file)\n"
+        if a not in s or c not in s:
+            return False
+        s = s.replace(a, b).replace(c, d)
+    elif mid == "c10-entry-after-flush":  # freed slot's entry written after the last flush
+        a = "        self.entries.append(newEntry)\n        self.handler.seek(64 + 288 * (len(self.entries) - 1), 0)\n        newEntry._write(self.handler)\n"
+        c = "        self.handler.truncate()\n        self.handler.flush()\n"
+        if a not in s or c not in s:
+            return False
+        s = s.replace(a, "        self.entries.append(newEntry)\n")
+        s = s.replace(c, "        self.handler.truncate()\n        self.handler.flush()\n        self.handler.seek(64 + 288 * (len(self.entries) - 1), 0)\n        newEntry._write(self.handler)\n")
+    elif mid == "c06-vp-swap":  # reader and writer swapped consistently: round trip still fine
+        a = "        origin = VEC2I.bread(stream)\n        size = VEC2I.bread(stream)\n"
+        b = "        size = VEC2I.bread(stream)\n        origin = VEC2I.bread(stream)\n"
+        c = "        VEC2I.bwrite(stream, self.origin)\n        VEC2I.bwrite(stream, self.size)\n"
+        d = "        VEC2I.bwrite(stream, self.size)\n        VEC2I.bwrite(stream, self.origin)\n"
         if a not in s or c not in s:
             return False
         s = s.replace(a, b).replace(c, d)
